@@ -153,6 +153,9 @@ def explore(driver, cfg, deviations=0, max_states=None, max_seconds=None, closur
     (branches on which they fire are cut, as documented in DESIGN.md section 6)."""
     res = Result()
     t0 = PERF()
+    if not max_seconds:
+        # safety net of the quick tier: a runaway configuration is reported as capped, never left running
+        max_seconds = int(os.environ.get('VERIF_HARD_CAP_S', '900'))
     rnd = random.Random(int(os.environ.get('VERIF_SHUFFLE') or seed or 0))
     w = driver.build(cfg)
     w.drain_observations()
